@@ -588,7 +588,17 @@ func (t *Typechecker) VisitCastExpr(expr *ast.CastExpr) ast.VisitResult {
 
 func (t *Typechecker) VisitCastAssigneable(expr *ast.CastAssigneable) ast.VisitResult {
 	lhs := t.Evaluate(expr.Lhs)
-	if !ddptypes.Equal(ddptypes.TrueUnderlying(lhs), ddptypes.TrueUnderlying(expr.TargetType)) {
+	valid := ddptypes.Equal(ddptypes.TrueUnderlying(lhs), ddptypes.TrueUnderlying(expr.TargetType))
+
+	// typedefs can only be converted to/from their underlying type
+	targetTypeDef, isTargetTypeDef := ddptypes.CastTypeDef(expr.TargetType)
+	lhsTypeDef, isLhsTypeDef := ddptypes.CastTypeDef(lhs)
+	if valid && (isTargetTypeDef || isLhsTypeDef) && !ddptypes.Equal(lhs, expr.TargetType) {
+		valid = (isTargetTypeDef && ddptypes.Equal(lhs, targetTypeDef.Underlying)) ||
+			(isLhsTypeDef && ddptypes.Equal(expr.TargetType, lhsTypeDef.Underlying))
+	}
+
+	if !valid {
 		t.err(ddperror.TYP_BAD_CAST, expr.GetRange(), "Falsche Nutzung einer Typumwandlung in einem Referenz Kontext")
 	}
 	t.latestReturnedType = expr.TargetType
